@@ -16,7 +16,7 @@ LEVEL = "model_checking"
 
 
 def run(R):
-    R.rule = ("cases = cells of the product {plain, length, :- - := = :? ? :+ + % %% # ##} x parameter {variable unset/null/'x'/'x y', "
+    R.rule = ("cases = cells of the product {plain, length, :- - := = :? ? :+ + % %% # ##} x parameter {variable unset/null/x/x y/multi-byte, "
               "$1, $@, $*, $#, $!} x positional sets {none, one empty, one, three with an empty one} x word {w, 'u v', side-effect "
               "word, pattern} x quoting {none, double quotes, quoted word} x IFS {unset, ',', empty} x nounset; exhaustive; "
               "distinct_nontrivial = distinct cells whose operator uses the word, assigns, fails or removes a pattern")
